@@ -45,6 +45,7 @@ func runC05(cx *Ctx, r *Report) {
 	r.Assumptions = []string{"bank keeper semantics", "Σ farmer.Locked = pool.TotalLptLocked holds initially; the rules keep it by pairing equal deltas"}
 	per := collectEvents(cx, r, "farm", "msg", "abci")
 	cx.farmSettlementCommitted(r, per)
+	cx.rewardAfterUpdate(r, per)
 	amt := "msg.Amount.Amount"
 	// ---------------- Stake
 	{
@@ -280,6 +281,7 @@ func runC06(cx *Ctx, r *Report) {
 	r.Assumptions = []string{"bank keeper semantics", "the active queue contains each running pool once (C13)"}
 	per := collectEvents(cx, r, "farm", "msg", "abci")
 	cx.farmSettlementCommitted(r, per)
+	cx.rewardAfterUpdate(r, per)
 	// ---------------- create
 	{
 		evs := per["CreatePool"]
@@ -642,5 +644,47 @@ func (cx *Ctx) farmSettlementCommitted(r *Report, per map[string][]hev) {
 		r.toolErr("no state effect found on the farm EndBlock chain")
 	} else if bad == 0 {
 		r.ok("settlement-committed", "EndBlock", "", fmt.Sprintf("all %d state effects of the farm end blocker run on the block's own context (no branch that can be dropped)", n))
+	}
+}
+
+// rewardAfterUpdate (C05, C06): every reward payout is preceded, on every path, by the
+// shared pool update (or the ended-pool route that loads the rules itself).
+func (cx *Ctx) rewardAfterUpdate(r *Report, per map[string][]hev) {
+	for _, name := range sortedKeys(per) {
+		for _, x := range per[name] {
+			if x.ev.Kind != "bank.SendCoinsFromModuleToAccount" || x.ev.Args[1].LooseString() != `"reward_collector"` || x.e.Role != "msg" && x.e.Role != "abci" {
+				continue
+			}
+				// the per-share calculation runs on the pool as the shared update left it (rules
+			// loaded, rewards released up to this block): the update is executed before the
+			// payout on every path, except on the route of an ended pool
+			// (path rule in the handler's own frame: every path to the payout passes the call
+			// that performs the update, or the ended-pool route that loads the rules itself)
+			upd := false
+			for A := x.ev.Fr; A != nil && !upd; A = A.Parent {
+				px := liftTo(x.ev, A)
+				if px == nil {
+					break
+				}
+				sites := map[ssa.Instruction]bool{}
+				for _, y := range per[name] {
+					sy := liftTo(y.ev, A)
+					if sy == nil || sy == px || !mustBelowSite(y.ev, A) {
+						continue
+					}
+					switch {
+					case y.ev.Kind == "assign:FarmPool.LastHeightDistrRewards":
+						sites[sy] = true
+					case (y.ev.Kind == "store.iter" || y.ev.Kind == "store.get") && hasPrefix(y.ev, "farm:FarmPoolRuleKey=0x02"):
+						if _, exp := y.fact(true, "farm/keeper.Keeper.Expired("); exp {
+							sites[sy] = true
+						}
+					}
+				}
+				upd = len(sites) > 0 && mustPassFrom(A.Fn, A.Fn.Blocks[0], func(i ssa.Instruction) bool { return sites[i] }, func(b *ssa.BasicBlock) bool { return b == px.Block() })
+			}
+			ended := false
+			r.check(upd || ended, "reward-after-update", name, x.ev.Pos(cx), "the reward is calculated after the shared pool update has run on every path (or the pool has ended)", "in "+name+" the reward is calculated and paid on a path that skips the shared pool update (the update that loads the reward rules into the pool and releases rewards up to this block): the calculation then sees no rules, pays nothing and stores an empty reward debt, so the farmer's next interaction pays the whole accumulated share again out of other farmers' rewards")
+		}
 	}
 }
